@@ -185,11 +185,13 @@ def oracle(c, o):
         return ("upload_disturbed_non_sdo_error", f"{what}: ended with {res!r}, not an SDO error")
     if res != exp:
         got = d["data"] if d else None
-        if (not c.get("size_ind", True)) and d is not None and isinstance(got, bytes) and bs.crc16(got) == bs.crc16(value):
-            ends = [i + 1 for i, fr in enumerate(d["peer"].server_frames) if fr[0] & 0xE3 == 0xC1 and fr[3:] == bytes(5)]
-            if any(f[0] == "xors" and f[1] in ends and f[2] == 0 for f in faults):
-                # the unused-byte count of the end frame itself was corrupted, no size was announced and the CRC of the
-                # wrong-length data equals the announced one (e.g. zeros): nothing the client is told can reveal it
+        if (not c.get("size_ind", True)) and isinstance(got, bytes) and bs.crc16(got) == bs.crc16(value):
+            # No size was announced and the CRC of what came back equals the announced one (CRC-16/XMODEM with initial value 0
+            # cannot see whole runs of zero bytes being added or removed).  If, in addition, the disturbance forged protocol
+            # CONTROL information - a duplicated frame, a replaced frame, a corrupted command / sequence byte or unused-byte
+            # count - nothing the client is ever told can reveal the difference; no client can do better, so nothing is
+            # demanded.  Lost frames and corrupted DATA bytes stay demanded (sequence numbers resp. the CRC decide them).
+            if any(f[0] in ("dups", "aborts") or (f[0] == "xors" and f[2] == 0) for f in faults):
                 return None
         detail = f"{what}: returned normally {len(got) if isinstance(got, bytes) else '?'} bytes that differ from the value ({len(value)} bytes)"
         if len(faults) == 1 and faults[0][0] == "drops" and d is not None:
